@@ -1,0 +1,14 @@
+//go:build verif
+
+package dkg
+
+import "github.com/corestario/kyber"
+
+// VerifDealerCoefficients returns the coefficients of this participant's secret
+// dealer polynomial (verification hook: secrecy checks need the actual values).
+func (d *DKG) VerifDealerCoefficients() []kyber.Scalar {
+	if d.instance == nil || d.instance.GetDealer() == nil {
+		return nil
+	}
+	return d.instance.GetDealer().PrivatePoly().Coefficients()
+}
